@@ -93,11 +93,12 @@ def blocklen(T, d):
     return n if T in ("state", "povm") else n * n
 
 
-def build(T, c, x, m, flag):
+def build(T, c, x, m, flag, **extra):
     """object of type T from the stacked parameter vector x (fresh arrays owned by the caller are NOT shared)"""
     d = c.dim; n = d * d
     x = np.array(x, dtype=np.float64)
     kw = dict(is_physicality_required=False, on_para_eq_constraint=bool(flag))
+    kw.update(extra)
     C = cls_of(T)
     if T == "state":
         return C(c, x.copy(), **kw)
@@ -794,6 +795,115 @@ def sub_large(ctx):
     ctx.run_cases("large", chk_large, cases)
 
 
+# ---------------------------------------------------------------------------------- closure factories x requested arguments
+FLAG_NAME = {None: "None", True: "T", False: "F"}
+
+
+def chk_closures(ctx, case):
+    """every func_calc_proj_{eq,ineq}_constraint(_with_var) / func_calc_proj_physical(_with_var) factory, requested with
+    on_para_eq_constraint in {None, True, False} from objects whose OWN flag is True and False (and with mode_proj_order /
+    max_iteration / eps_truncate_imaginary_part different from the object's own): the closure must compute, in the REQUESTED
+    parametrisation (None = the object's own), the same point as the static variable-level function at that flag, as
+    to_var(object-level projection) at that flag and as the Coq model (equality) / a certified nearest point (inequality)."""
+    T = case["type"]; c = get_sys(case["sys"]); d = c.dim; m = case["m"]; scale = case["scale"]
+    C = cls_of(T); name = C.__name__
+    x = np.array(case["data"], dtype=np.float64)
+    nrng = np.random.default_rng(case["seed"])
+    tol = TOL_EQ * max(1.0, scale)
+    mode_other = case["mode"]; iters = case["iters"]
+    with quara_atol() as atol:
+        tolv = TOL_EQ * scale + 10 * atol
+        # the variable vector of x in each parametrisation, the static results and the object-level results, per EFFECTIVE flag
+        ref = {}
+        for eff in (True, False):
+            o_eff = build(T, c, x, m, eff)
+            var = np.array(o_eff.to_var(), dtype=np.float64).copy()
+            st_eq = np.array(C.calc_proj_eq_constraint_with_var(c, var.copy(), on_para_eq_constraint=eff), dtype=np.float64)
+            ob = o_eff.generate_from_var(var.copy(), on_para_eq_constraint=eff)
+            ob_eq = np.array(ob.calc_proj_eq_constraint().to_var(), dtype=np.float64)
+            stm, mv = model_eq_var(ctx, T, d, eff, var)
+            if stm != "ok" or maxabs(st_eq, [float(v) for v in mv]) > tol:
+                ctx.violation("closures", name + ".calc_proj_eq_constraint_with_var", "model-mismatch",
+                              "static variable-level equality projection (flag %s) differs from the model (%s/%s)" % (eff, T, case["sys"]), case)
+                return
+            st_in = np.array(C.calc_proj_ineq_constraint_with_var(c, var.copy(), on_para_eq_constraint=eff), dtype=np.float64)
+            ob_in = np.array(ob.calc_proj_ineq_constraint().to_var(), dtype=np.float64)
+            # nearest-point-ness of the static inequality result at this flag: verified certificate
+            xin = stacked(ob); xout = stacked(ob.generate_from_var(st_in.copy(), on_para_eq_constraint=eff))
+            check_projection_pair(ctx, case, name + ".calc_proj_ineq_constraint_with_var", "%s/%s/closures/flag=%s" % (T, case["sys"], eff),
+                                  operators(T, c, xin, m), operators(T, c, xout, m), atol, nrng, case, ncomp=4)
+            # physical projection with NON-default arguments (a few Dykstra steps, the other projection order)
+            o_ph = build(T, c, x, m, eff, mode_proj_order=mode_other)
+            st_ph = np.array(o_ph.calc_proj_physical_with_var(var.copy(), on_para_eq_constraint=eff, max_iteration=iters), dtype=np.float64)
+            ob_ph = np.array(o_ph.generate_from_var(var.copy(), on_para_eq_constraint=eff, mode_proj_order=mode_other)
+                             .calc_proj_physical(max_iteration=iters).to_var(), dtype=np.float64)
+            ref[eff] = dict(var=var, st_eq=st_eq, ob_eq=ob_eq, st_in=st_in, ob_in=ob_in, st_ph=st_ph, ob_ph=ob_ph)
+            for a, b, what in ((st_eq, ob_eq, "eq"), (st_in, ob_in, "ineq"), (st_ph, ob_ph, "physical")):
+                if maxabs(a, b) > (tol if what == "eq" else 10 * tolv):
+                    ctx.violation("closures", name + ".calc_proj_%s%s_with_var" % (what, "" if what == "physical" else "_constraint"), "object-vs-variable",
+                                  "static variable-level %s projection and to_var(object-level projection) differ by %.3e at flag %s (%s/%s/scale=%g)" % (what, maxabs(a, b), eff, T, case["sys"], scale), case)
+        for own in (True, False):
+            # the object's own settings differ from everything that is requested below
+            obj = build(T, c, x, m, own, mode_proj_order=("eq_ineq" if mode_other == "ineq_eq" else "ineq_eq"))
+            for req in (None, True, False):
+                eff = own if req is None else req
+                R = ref[eff]; var0 = R["var"]
+                combo = "%s/own=%s/req=%s" % (T, FLAG_NAME[own], FLAG_NAME[req])
+                ctx.count("closures", key=(T, case["sys"], m, case["seed"], own, req), nontrivial=(req is not None and req != own), label=combo)
+                kw = {} if req is None else {"on_para_eq_constraint": req}
+                table = [
+                    ("func_calc_proj_eq_constraint", lambda: obj.func_calc_proj_eq_constraint(**kw), R["ob_eq"], R["st_eq"], tol),
+                    ("func_calc_proj_eq_constraint_with_var", lambda: obj.func_calc_proj_eq_constraint_with_var(**kw), R["st_eq"], R["ob_eq"], tol),
+                    ("func_calc_proj_ineq_constraint", lambda: obj.func_calc_proj_ineq_constraint(**kw), R["ob_in"], R["st_in"], 10 * tolv),
+                    ("func_calc_proj_ineq_constraint_with_var", lambda: obj.func_calc_proj_ineq_constraint_with_var(**kw), R["st_in"], R["ob_in"], 10 * tolv),
+                    ("func_calc_proj_physical", lambda: obj.func_calc_proj_physical(mode_proj_order=mode_other, max_iteration=iters, **kw), R["ob_ph"], R["st_ph"], 10 * tolv),
+                    ("func_calc_proj_physical_with_var", lambda: obj.func_calc_proj_physical_with_var(mode_proj_order=mode_other, max_iteration=iters, **kw), R["st_ph"], R["ob_ph"], 10 * tolv),
+                ]
+                for fname, mk, want, want2, tl in table:
+                    v = var0.copy()
+                    try:
+                        out = np.array(mk()(v), dtype=np.float64)
+                    except Exception as e:
+                        if is_truncate_error(e):
+                            raise
+                        ctx.violation("closures", "QOperation." + fname, "raises:" + type(e).__name__,
+                                      "closure requested with on_para_eq_constraint=%s from a %s whose own flag is %s raises %s: %s" % (FLAG_NAME[req], name, own, type(e).__name__, str(e)[:80]), dict(case, own=own, req=FLAG_NAME[req]))
+                        continue
+                    if not np.array_equal(v, var0):
+                        ctx.violation("closures", "QOperation." + fname, "mutates-argument", "closure modified its var argument (%s)" % combo, dict(case, own=own, req=FLAG_NAME[req]))
+                    dev = max(maxabs(out, want), maxabs(out, want2))
+                    if dev > tl:
+                        ctx.violation("closures", "QOperation." + fname, "ignores-requested-flag" if (req is not None and req != own and maxabs(out, want) > tl) else "object-vs-variable",
+                                      "closure(var) differs by %.3e from the static variable-level function / to_var(object-level projection) at the REQUESTED parametrisation (%s, effective flag %s, scale %g, %s): the two forms do not compute the same point" % (dev, combo, eff, scale, case["sys"]),
+                                      dict(case, own=own, req=FLAG_NAME[req]))
+        # the object's own eps_truncate_imaginary_part must reach the variable-level closure (it also zeroes small real coefficients)
+        eps = 1e-3 * scale
+        o_eps = build(T, c, x, m, False, eps_truncate_imaginary_part=eps)
+        v0 = ref[False]["var"]
+        got = np.array(o_eps.func_calc_proj_ineq_constraint_with_var(False)(v0.copy()), dtype=np.float64)
+        want = np.array(C.calc_proj_ineq_constraint_with_var(c, v0.copy(), on_para_eq_constraint=False, eps_truncate_imaginary_part=eps), dtype=np.float64)
+        if maxabs(got, want) > 0:
+            ctx.violation("closures", "QOperation.func_calc_proj_ineq_constraint_with_var", "ignores-eps_truncate_imaginary_part",
+                          "closure of an object with eps_truncate_imaginary_part=%g differs from the static function called with that value by %.3e (%s/%s)" % (eps, maxabs(got, want), T, case["sys"]), case)
+
+
+def sub_closures(ctx):
+    rng = ctx.rng
+    cases = []
+    plan = [("state", "1q"), ("povm", "1q"), ("gate", "1q"), ("mprocess", "1q"), ("state", "1t"), ("povm", "1t"), ("gate", "1t"), ("state", "2q"),
+            ("povm", "2q"), ("mprocess", "1q"), ("gate", "1q"), ("state", "qt")]
+    for i in range(ctx.n(24, 160)):
+        T, sk = plan[i % len(plan)]
+        d = get_sys(sk).dim
+        m = rng.randint(2, 4) if T in ("povm", "mprocess") else 1
+        scale = rng.choice([1e-2, 1.0, 1.0, 10.0])
+        cases.append({"type": T, "sys": sk, "m": m, "scale": scale, "seed": rng.getrandbits(32), "kinds": ["params"],
+                      "mode": rng.choice(["eq_ineq", "ineq_eq"]), "iters": rng.choice([1, 2, 3, 5]),
+                      "data": rnd_vec(rng, m * blocklen(T, d), scale)})
+    ctx.sample("closures", dict(cases[0], data=cases[0]["data"][:8]))
+    ctx.run_cases("closures", chk_closures, cases)
+
+
 # ---------------------------------------------------------------------------------- eigh -> clip -> rebuild (algorithm model)
 def model_eig_clip(ctx, w, U):
     """Model/C04_EigClip.v eig_clip, executed exactly on the float values of LAPACK's (w, U)"""
@@ -910,8 +1020,8 @@ def sub_corpus(ctx):
             ctx.run_cases(doc["sub"], FNS[doc["sub"]], [doc["case"]])
 
 
-SUBS = [("corpus", sub_corpus), ("eq", sub_eq), ("ineq", sub_ineq), ("errors", sub_errors), ("large", sub_large), ("eigclip", sub_eigclip), ("certself", sub_certself)]
-FNS = {"eq": chk_eq, "ineq": chk_ineq, "errors": chk_errors, "large": chk_large, "eigclip": chk_eigclip, "certself": chk_certself}
+SUBS = [("corpus", sub_corpus), ("eq", sub_eq), ("ineq", sub_ineq), ("closures", sub_closures), ("errors", sub_errors), ("large", sub_large), ("eigclip", sub_eigclip), ("certself", sub_certself)]
+FNS = {"eq": chk_eq, "ineq": chk_ineq, "closures": chk_closures, "errors": chk_errors, "large": chk_large, "eigclip": chk_eigclip, "certself": chk_certself}
 
 
 def run(ctx):
